@@ -293,6 +293,25 @@ CHECKS = {
         note="Trusted: vf.spec.to_spec and the statement constructors, pytools' unique-name "
              "generator. The read set is read as required <= reported <= permitted; ids that do "
              "not clash are not required to keep their names."),
+    "C12": dict(
+        category="model_checking", design="DESIGN.md 4/C12",
+        technique="bounded-exhaustive enumeration of expression lists through both taggers plus "
+                  "explicit-state BFS over evaluator histories, against the reference evaluator "
+                  "and a once-per-wrapper reference model",
+        text="Every ordered list of 1-2 expressions from a 220 / 712 expression pool (commuted "
+             "twins, nested repeats), every triple over 23 / 69, and every 1-3-list of inputs that "
+             "already contain wrappers (prefixes, scopes, CSE(CSE)) is run through "
+             "tag_common_subexpressions and the histogram tagger: value by the reference "
+             "semantics, once-only evaluation by ONE rec-intercepting evaluator with call-counting "
+             "functions, and shape (no wrapper directly around a wrapper, repeats in or below a "
+             "wrapper). 2180 wrapping-helper cases are compared with the literal statement. "
+             "Engine B: every evaluator history up to depth 3 / 4 over 6 scenarios (12k / 170k "
+             "states) on reused, fresh and cached evaluator instances is replayed from scratch and "
+             "compared with a once-per-wrapper reference model.",
+        note="Trusted: vf.refsem as denotation and as the once-per-wrapper model "
+             "(Ref(cse_once=True)). 'Same operands in another order' is read at one level. The "
+             "known findings for the legacy histogram tagger use broad globs (same-subkind "
+             "defects there would be masked)."),
 }
 
 NOT_BUILT_REASON = "check not built yet in this revision (planned, see DESIGN.md section 4)"
